@@ -40,6 +40,8 @@ FUNC_PROG = "x = 0\ny = 0\nwhile true:\n    u = Normal(0, 1)\n    s = Sin(u)\n  
 GUARD_PROG = "stop = 0\nsteps = 0\nwhile stop == 0:\n    stop = Bernoulli(1/2)\n    steps = steps + 1\nend\n"
 AUX_PROG = ("a = 0\nb = 1\nc = 0\nx = 0\nwhile true:\n    a, b = b, a + b\n    c = Bernoulli(1/3)\n    if c == 1 && a > 2:\n        x = x + 1 {1/2} x - 1\n"
             "    elif c == 0:\n        x = x + c\n    end\n    a = 1\n    b = 0\nend\n")
+NLM_PROG = ("while true:\n    s = Bernoulli(1/2)\n    if s == 0:\n        x, y = x + x*y, (1/3)*x + (2/3)*y + (x*y)\n    else:\n"
+            "        x, y = x + y + (2/3)*x*y, 2*y + (2/3)*(x*y)\n    end\nend\n")
 HOSTILE_NAMES = ["_t0", "_t1", "_t2", "_u0", "_u1", "_old0", "_old1", "_r0", "_r1", "_c0", "_a0", "_b0", "_inv0"]
 
 
@@ -95,6 +97,18 @@ def generate(seed, tier):
         rng.shuffle(perm)
         cases.append({"id": f"hist-{cs}", "target": target, "others": others, "perm": perm, "features": feats + [f"history:{len(others)}"],
                       "text": target["text"]})
+    # invariant synthesis for an unsolvable loop: the ORDER of the reported invariants must not depend on history either
+    nsynth = 3 if tier == "quick" else 30
+    for j in range(nsynth):
+        cs = K.harness_seed(seed, ID + "-synth", j)
+        rng = random.Random(cs)
+        target = {"id": f"A-synth-{j}", "text": NLM_PROG, "goals": [], "settings": {}, "N": 0, "values": {}, "source_vars": ["x", "y", "s"],
+                  "synth": {"cand": ["x", "y"], "deg": 2}}
+        others = []
+        for _ in range(rng.choice([2, 5, 9, 14])):
+            others.append({"id": "B-aux", "text": AUX_PROG, "goals": [{"x": 1}], "settings": {}, "N": 1, "values": {}, "source_vars": ["a", "b", "c", "x"]})
+        cases.insert(2 * j + 1, {"id": f"synth-{cs}", "target": target, "others": others, "perm": [], "features": ["synth-inv-order", f"history:{len(others)}"],
+                                 "text": NLM_PROG})
     return cases
 
 
@@ -117,7 +131,8 @@ def run_jobs(jobs, hashseed, timeout):
 
 
 def summary(r):
-    return {"goals": r.get("goals"), "types": r.get("types"), "refusal": r.get("refusal"), "invariants": r.get("invariants")}
+    return {"goals": r.get("goals"), "types": r.get("types"), "refusal": r.get("refusal"), "invariants": r.get("invariants"),
+            "synth": r.get("synth")}
 
 
 def diff(ref, alt):
@@ -131,6 +146,8 @@ def diff(ref, alt):
             out.append(f"E({g}): reference {json.dumps(rv)[:160]} vs {json.dumps(av)[:160]}")
     if ref.get("types") != alt.get("types"):
         out.append(f"types: reference {json.dumps(ref.get('types'))[:200]} vs {json.dumps(alt.get('types'))[:200]}")
+    if ref.get("synth") != alt.get("synth"):
+        out.append(f"synthesized invariants (order matters): reference {ref.get('synth')} vs {alt.get('synth')}")
     if ref.get("invariants") != alt.get("invariants"):
         out.append(f"invariants: reference {str(ref.get('invariants'))[:200]} vs {str(alt.get('invariants'))[:200]}")
     return out
@@ -181,6 +198,11 @@ def run_case(case, tier):
                                       "detail": f"{label}: " + "; ".join(d)[:700] + f" | globals changed by the preceding analyses: {json.dumps([o.get('globals_changed') for o in out[:-1]])[:300]}"})
     if completed == 0:
         res.update(verdict="inconclusive", reason="no-history-run-completed")
+        return res
+    if ref.get("synth") is not None:
+        res["nontrivial"] = isinstance(ref["synth"], list) and len(ref["synth"]) >= 2 and completed >= 3
+        res["verdict"] = "violated" if res["violations"] else "held"
+        res["sample"] = {"target": "synth_inv(non-lin-markov-1, [x,y], deg 2)", "reference": ref["synth"], "histories": [r[0] for r in runs]}
         return res
     res["nontrivial"] = bool(ref.get("goals")) and any("values" in (v or {}) for v in ref["goals"].values()) and completed >= 3
     res["verdict"] = "violated" if res["violations"] else "held"
